@@ -266,7 +266,7 @@ V("c18-enter-nonblocking", ["C18"], "break", T, "Tree.__enter__", "self._lock.ac
 V("c18-copyto-unlocked", ["C18"], "break", T, "Tree.copy_to", "        with self:\n", "        if True:\n", ["LOCK"])
 V("c18-exit-swallows", ["C18"], "break", T, "Tree.__exit__", "        return\n", "        return True\n", ["LOCK"])
 V("c18-keep-more-under-lock", ["C18", "C07"], "keep", T, "Tree.copy", "        new_tree = Tree(name)\n        with self:\n            new_tree._root._add_from", "        with self:\n            new_tree = Tree(name)\n            new_tree._root._add_from")
-V("c18-keep-rename-res", ["C18"], "keep", T, "Tree.save", "res", "doc", all=True)
+V("c18-keep-rename-res", ["C18"], "keep", T, "Tree.save", "            res = {", "            doc = {", more=[(T, "Tree.save", "json.dump(res,", "json.dump(doc,")])
 
 # ------------------------------------------------------------------ C19
 V("c19-dirs-first", ["C19"], "break", "fs.py", "load_tree_from_fs",
